@@ -131,6 +131,11 @@ func mapOrderN(e *Env, scope map[*ssa.Function]bool, floor int) {
 					case *ssa.Call:
 						name := prov.CalleeName(&x.Call)
 						if name == "builtin:append" {
+							// accumulation into a per-key list of an outer map: when two map keys
+							// fold onto one key, the list's order is the iteration order
+							if lk, ok := x.Call.Args[0].(*ssa.Lookup); ok && !definedIn(lk.X, body) {
+								bad = append(bad, "appends to "+short(prov.Of(lk))+", a list kept in an outer map, in iteration order ("+e.P.InstrPos(in)+")")
+							}
 							// loop-carried accumulation: the header phi that receives this append
 							for _, ref := range *x.Referrers() {
 								if ph, ok := ref.(*ssa.Phi); ok && !body[ph.Block()] || ok && ph.Block() == b {
